@@ -8,7 +8,7 @@ SOURCES = ["src/monitoring/OnlineAverage.cpp", "src/monitoring/OnlineVariance.cp
 NOINLINE = True
 
 def entries(tier):
-    names = ["c19_shared_variable", "c19_shared_optional", "c19_online_average", "c19_online_variance", "c19_rate_monitoring",
+    names = ["c19_shared_variable", "c19_shared_variable_small", "c19_shared_optional", "c19_online_average", "c19_online_variance", "c19_rate_monitoring",
              "c19_checkup_equal_to", "c19_checkup_greater_than", "c19_checkup_lower_than", "c19_checkup_reliability", "c19_checkup_rate"]
     return [Entry(n, "real", "int", lockmon=LockMonitor) for n in names]
 
@@ -43,7 +43,7 @@ def custom_replay(runner, ent, o):
     return res["races"] > 0, dict(status=res["status"], tsan_races=res["races"], functions=res["functions"])
 
 
-CLAIM = ("Lock-set discipline decided on symbolic executions of every public method of SharedVariable<struct>, SharedOptionalVariable<long>, "
+CLAIM = ("Lock-set discipline decided on symbolic executions of every public method of SharedVariable<struct> and <double>, SharedOptionalVariable<long>, "
          "OnlineAverage, OnlineVariance, RateMonitoring, CheckupEqualTo/GreaterThan/LowerThan<double>, CheckupReliability, CheckupRate: "
          "for all inputs and all paths, two accesses by different logical threads to the object's footprint (its storage and the heap "
          "reachable from it, including the caller-side copy of a returned report) conflict only when they hold a common mutex or are "
